@@ -828,7 +828,7 @@ impl BbrCongestionController {
     /// The minimal cwnd value BBR targets
     #[inline]
     fn minimum_window(max_datagram_size: u16) -> u32 {
-        (MIN_PIPE_CWND_PACKETS * max_datagram_size) as u32
+        MIN_PIPE_CWND_PACKETS as u32 * max_datagram_size as u32
     }
 
     /// Updates the congestion window based on the latest model
